@@ -53,15 +53,20 @@ def graph_run(prop, tier, seed, module, mc_module, cfgs, required_tags, level_no
         rep = None
         for sh in ([seed] if tier == "quick" else [0, seed, seed + 1]):
             os.environ["VH_SHUFFLE"] = str(sh)
+            # besides the transition-by-transition replay: random walks through the graph executed as whole behaviours on one object
+            os.environ["VH_WALKS"] = os.environ.get("VERIF_WALKS", "200" if tier == "quick" else "1000")
             try:
                 vlib.run_vh(["replay", module, "--cfg", cfgjson, "--edges", graph, "--out", rep_path, "--maxdiv", "2"])
             finally:
                 os.environ.pop("VH_SHUFFLE", None)
+                os.environ.pop("VH_WALKS", None)
             r1 = json.load(open(rep_path))
             if rep is None:
                 rep = r1
             else:
                 rep["ops_executed"] += r1["ops_executed"]
+                rep["walks"] = rep.get("walks", 0) + r1.get("walks", 0)
+                rep["walk_steps"] = rep.get("walk_steps", 0) + r1.get("walk_steps", 0)
                 rep["edges_masked"] = max(rep["edges_masked"], r1["edges_masked"])
                 rep["divergences"] += r1["divergences"]
                 for t, c in r1["divergent_edges_by_tag"].items():
@@ -74,6 +79,7 @@ def graph_run(prop, tier, seed, module, mc_module, cfgs, required_tags, level_no
         tlc_cmds.append(r["stats"]["cmd"])
         cfg_summ.append({"cfg": cfg, "distinct_states": r["stats"]["distinct"], "transitions": nedges,
                          "replayed": rep["edges_replayed"], "masked": rep["edges_masked"],
+                         "random_walks": rep.get("walks", 0), "random_walk_steps": rep.get("walk_steps", 0),
                          "tlc_wall_s": r["stats"]["wall_s"], "action_coverage": r["stats"]["coverage"],
                          "divergent_edges_by_tag": rep["divergent_edges_by_tag"]})
         for t, c in rep["tag_counts"].items():
